@@ -409,6 +409,21 @@ def oracle(c19, cfg, share):
     return allowed, bad_model
 
 
+def entry_with_unregistered_model(cfg):
+    """some decay ENTRY (instantiated by the first pass or not) names a model that is not a registered two-body class;
+    the second pass of DecayConfig.__init__ (decay_struct, empty particle map) constructs every entry that lies on a
+    slot-level chain, so such an entry raises KeyError even when its candidate list is empty"""
+    for core, outs in cfg["decay"].items():
+        for sub in ([] if not outs else subs_of(outs)):
+            o = {}
+            for i in sub:
+                if isinstance(i, dict):
+                    o.update(i)
+            if o.get("model", "default") not in ("default", "gls-bf", "LS-decay"):
+                return True
+    return False
+
+
 def check_statement(c19, cfg, share, o):
     """the property statement on the implementation: list of (key, what)"""
     out = []
@@ -418,7 +433,7 @@ def check_statement(c19, cfg, share, o):
         return out
     if "raise" in o:
         if o["stage"] == "decay":
-            if o["raise"] == "KeyError" and bad_model:
+            if o["raise"] == "KeyError" and (bad_model or entry_with_unregistered_model(cfg)):
                 return out
             if o["raise"] == "AssertionError" and c19.unreachable_declaration(cfg):
                 return out
